@@ -18,6 +18,7 @@
   where it crosses 0 °C.
 -/
 import Ladybug.Proofs.C09Lemmas
+import Ladybug.Proofs.C09Obj
 
 namespace Psychro
 
@@ -424,6 +425,191 @@ theorem C09_chart_coords_invert (c : Chart ℝ) (t hr : ℝ) (hx : c.xDim ≠ 0)
     c.minT + (c.tX t - c.baseX) / c.xDim = t ∧ (c.hrY hr - c.baseY) / c.yDim = hr := by
   unfold Chart.tX Chart.hrY
   constructor <;> field_simp <;> ring
+
+
+/-! ### air without water vapour through every route; consumers of the Newton dew point (round 3) -/
+
+/-- Whenever the relative humidity handed to `dew_point_from_db_rh` is not positive (no water vapour, or a
+    non-physical negative vapour pressure) the result is the documented −273.15 °C, for every dry bulb. -/
+theorem C09_no_vapour_dew_point (db rh : ℝ) (h : rh ≤ 0) : dewPointFromDbRh db rh = -273.15 := by
+  have hs := satVapPres_pos (db + 273.15)
+  unfold dewPointFromDbRh dewPw
+  simp only []
+  have e : (100.0 : ℝ) = 100 := by norm_num
+  have z : (0.0 : ℝ) = 0 := by norm_num
+  rw [if_pos]
+  rw [e, z]
+  have : rh / 100 ≤ 0 := by linarith
+  exact mul_nonpos_of_nonneg_of_nonpos hs.le this
+
+/-- Completely dry air (humidity ratio 0) has the same dew point −273.15 °C through the humidity-ratio route
+    `dew_point_from_db_hr` as through relative humidity 0, at every dry bulb and pressure. -/
+theorem C09_dry_air_hr_route (db p : ℝ) : dewPointFromDbHr db 0 p = -273.15 := by
+  unfold dewPointFromDbHr
+  apply C09_no_vapour_dew_point
+  unfold relHumidFromDbHr
+  simp
+
+/-- … and through the enthalpy route: the enthalpy of dry air, `1.006 · (db − ref)`, gives −273.15 °C. -/
+theorem C09_dry_air_enth_route (db p ref : ℝ) :
+    dewPointFromDbEnth db (1.006 * (db - ref)) p ref = -273.15 := by
+  unfold dewPointFromDbEnth
+  apply C09_no_vapour_dew_point
+  unfold relHumidFromDbEnth relHumidFromDbHr
+  simp
+
+/-- … and through the wet-bulb route: a wet bulb whose psychrometer vapour pressure is not positive
+    (`rel_humid_from_db_wb ≤ 0`, i.e. at or below the wet bulb of dry air) gives −273.15 °C. -/
+theorem C09_dry_air_wb_route (db wb p : ℝ) (h : relHumidFromDbWb db wb p ≤ 0) :
+    dewPointFromDbWb db wb p = -273.15 := by
+  unfold dewPointFromDbWb
+  exact C09_no_vapour_dew_point _ _ h
+
+/-- The day's dew point of a design day whose humidity is given as enthalpy reads the value in J/kg: it is
+    the dew point of the state with enthalpy `value / 1000` kJ/kg at the maximum dry bulb (whatever entry point
+    stored the value), and a design day with humidity ratio 0 has the dew point −273.15 °C. -/
+theorem C09_dd_enthalpy_units (value p db : ℝ) :
+    ddDewPoint .enthalpy value p db = dewPointFromDbEnth db (value / 1000) p 0 ∧
+      ddDewPoint .humidityRatio 0 p db = -273.15 := by
+  constructor
+  · unfold ddDewPoint
+    norm_num
+  · unfold ddDewPoint
+    exact C09_dry_air_hr_route db p
+
+/-- Relative humidity from a dew point is at most 100 whenever the dew point is at most the dry bulb and both
+    lie on one branch of the saturation curve (both ≤ 0 °C, or both in (0, 200] °C).  Across 0 °C it needs the
+    monotonicity of the saturation pressure over the branch point, which is a sampled sub-claim. -/
+theorem C09_rh_dpt_le_100_partial (T d : ℝ) (h1 : -273.15 < d) (hd : d ≤ T)
+    (hb : T ≤ 0 ∨ (0 < d ∧ T ≤ 200)) : relHumidFromDbDpt T d ≤ 100 := by
+  rcases eq_or_lt_of_le hd with rfl | hlt
+  · exact (C09_rh_dpt_sat d).le
+  · have hs := satVapPres_pos (T + 273.15)
+    have hm : satVapPres (d + 273.15) < satVapPres (T + 273.15) := by
+      rcases hb with hT | ⟨h0, hT⟩
+      · exact C09_pws_strictMono_ice ⟨by linarith, by linarith⟩ ⟨by linarith, by linarith⟩ (by linarith)
+      · exact C09_pws_strictMono_water_partial ⟨by linarith, by linarith⟩ ⟨by linarith, by linarith⟩
+          (by linarith)
+    unfold relHumidFromDbDpt
+    simp only []
+    have e : (100.0 : ℝ) = 100 := by norm_num
+    rw [e]
+    have := (div_lt_one hs).mpr hm
+    nlinarith
+
+/-- Every hour of a design day has a relative humidity of at most 100 %, as long as the hour's dry bulb and
+    its (capped) dew point lie on one branch of the saturation curve. -/
+theorem C09_dd_rh_le_100_partial (m db : ℝ) (h1 : -273.15 < min m db)
+    (hb : db ≤ 0 ∨ (0 < min m db ∧ db ≤ 200)) :
+    ∀ x ∈ ddHourlyRelHumid m [db], x ≤ 100 := by
+  unfold ddHourlyRelHumid ddHourlyDewPoint
+  simp only [List.map_cons, List.map_nil, List.zip_cons_cons, List.zip_nil_right, List.mem_singleton,
+    forall_eq]
+  split_ifs with h
+  · rw [min_eq_left h] at h1 hb
+    exact C09_rh_dpt_le_100_partial db m h1 h hb
+  · exact (C09_rh_dpt_sat db).le
+
+/-- Every vertex the chart draws for a state (t, rh) — `plot_point`, `data_points`, the vertices of the
+    relative-humidity curves and of the saturation line below the top of the chart — converts back, through the
+    chart's axes and `rel_humid_from_db_hr`, to a relative humidity in `[rh·(1 − 7.4·10⁻⁵), rh]`. -/
+theorem C09_chart_rh_curve (c : Chart ℝ) (t rh : ℝ) (hy : c.yDim ≠ 0) (hrh : 0 ≤ rh)
+    (hP : satVapPres ((if c.useIp then fToC t else t) + 273.15) * (rh / 100) < c.pressure) :
+    let tc := if c.useIp then fToC t else t
+    let back := relHumidFromDbHr tc (((c.plotPoint t rh).2 - c.baseY) / c.yDim) c.pressure
+    rh * (1 - 7.4e-5) ≤ back ∧ back ≤ rh := by
+  intro tc back
+  have hinv : ((c.plotPoint t rh).2 - c.baseY) / c.yDim = humidRatioFromDbRh tc rh c.pressure := by
+    unfold Chart.plotPoint Chart.hrY
+    simp only []
+    field_simp
+    ring
+  show rh * (1 - 7.4e-5) ≤ relHumidFromDbHr tc (((c.plotPoint t rh).2 - c.baseY) / c.yDim) c.pressure ∧
+    relHumidFromDbHr tc (((c.plotPoint t rh).2 - c.baseY) / c.yDim) c.pressure ≤ rh
+  rw [hinv]
+  exact C09_hr_rh_inverse tc rh c.pressure hrh hP
+
+
+/-! ### design-day objects: histories of setters, refused operations and reads (round 3)
+
+The statements hold for every numeric type the model is instantiated at (ℝ and the `Float` the driver
+executes), hence the generic `α`. -/
+
+section history
+
+variable {α : Type} [Add α] [Sub α] [Mul α] [Div α] [Neg α] [OfScientific α]
+  [LT α] [LE α] [DecidableLT α] [DecidableLE α] [Transc α]
+
+/-- After ANY history of operations on one design day (setters of humidity type / value / pressure / dry-bulb
+    maximum / range, operations the setters refuse, reads in any order and repetition) every observation the
+    property speaks about (day dew point, dew point at any dry bulb, hourly dry bulb, dew point, relative
+    humidity, pressure) equals the observation of a FRESH object built from the values the user has
+    established: for each field the argument of the last accepted setter, else the initial value.  In
+    particular nothing that was read or refused earlier can influence a later read. -/
+theorem C09_history_refines_fresh (o : DDObj α) (ops : List (DDOp α)) (r : DDRead α) :
+    ((o.after ops).step (.read r)).2 = .vals ((o.established ops).observe r) := by
+  rw [DDObj.after_eq_established]; rfl
+
+/-- The observations after a history, as a list of answers: the answer to a read placed after the history
+    `ops` inside a longer run is the fresh observation too (the run's answers are those of its steps). -/
+theorem C09_history_answers (o : DDObj α) (ops : List (DDOp α)) (r : DDRead α) :
+    (o.run (ops ++ [.read r])).2 = (o.run ops).2 ++ [.vals ((o.established ops).observe r)] := by
+  induction ops generalizing o with
+  | nil => rfl
+  | cons op rest ih =>
+    have h1 : (o.run ((op :: rest) ++ [.read r])).2
+        = (o.step op).2 :: ((o.step op).1.run (rest ++ [.read r])).2 := rfl
+    have h2 : (o.run (op :: rest)).2 = (o.step op).2 :: ((o.step op).1.run rest).2 := rfl
+    rw [h1, h2, ih]
+    have h3 : (o.step op).1.established rest = o.established (op :: rest) := by
+      rw [← DDObj.after_eq_established, ← DDObj.after_eq_established]; rfl
+    rw [h3]; rfl
+
+/-- A refused operation (an argument a setter's `assert` rejects: not a number, an unknown humidity type, a
+    negative or nan dry-bulb range) leaves the object exactly as it was, so every observation is unchanged. -/
+theorem C09_refused_preserves (o : DDObj α) (op : DDOp α) (h : (o.step op).2 = .refused) :
+    (o.step op).1 = o ∧ ∀ r, (o.step op).1.observe r = o.observe r := by
+  have := DDObj.step_refused o op h
+  exact ⟨this, fun r => by rw [this]⟩
+
+/-- Reads are pure: a read does not change the state, so asking twice gives the same answer and any
+    sequence of reads (any order, any repetition) is answered read by read with the observation of the
+    unchanged object. -/
+theorem C09_read_pure (o : DDObj α) (rs : List (DDRead α)) :
+    o.run (rs.map .read) = (o, rs.map fun r => .vals (o.observe r)) :=
+  DDObj.run_reads o rs
+
+/-- Order independence of reads: whatever reads came before, the answer to `r` is the same as on the
+    untouched object. -/
+theorem C09_reads_order_independent (o : DDObj α) (before : List (DDRead α)) (r : DDRead α) :
+    ((o.after (before.map .read)).step (.read r)).2 = (o.step (.read r)).2 := by
+  have h : o.after (before.map .read) = o := by
+    unfold DDObj.after; rw [DDObj.run_reads]
+  rw [h]
+
+/-- A setter changes only its own field: e.g. after an accepted pressure assignment the day's dew point is the
+    dew point of (type, value, NEW pressure, dry-bulb maximum) — the stale-memo shape "read, set pressure,
+    read" must give the fresh value. -/
+theorem C09_set_pressure_then_read (o : DDObj α) (v : α) (before : List (DDRead α)) :
+    ((o.after (before.map .read ++ [.setPressure (some v)])).step (.read .dayDew)).2
+      = .vals [ddDewPoint o.ty o.value v o.dbMax] := by
+  rw [C09_history_refines_fresh]
+  have : o.established (before.map .read ++ [.setPressure (some v)]) = { o with pressure := v } := by
+    rw [← DDObj.after_eq_established]
+    induction before with
+    | nil => rfl
+    | cons b rest ih => exact ih
+  rw [this]; rfl
+
+end history
+
+/-- non-vacuity: a history with an accepted setter, a refused one and reads; the established state is the
+    one a user expects (pressure replaced, range kept) -/
+example : ((⟨.wetbulb, 23, 101325, 32, 10⟩ : DDObj ℝ).established
+    [.read .hourlyDew, .setPressure (some 84000), .setDbRange (some (-1)), .setType none, .read .dayDew]).pressure
+      = 84000 := rfl
+example : ((⟨.wetbulb, 23, 101325, 32, 10⟩ : DDObj ℝ).step (.setType none)).2 = .refused := rfl
+
 
 /-! ### non-vacuity: the hypotheses are satisfiable on ordinary states -/
 
